@@ -7,6 +7,9 @@
 (* test.  MC_Wrap (cfg MC_Wrap_rl) checks that it gives the verdict of      *)
 (* WrapRel on every small text, whatever way the text is cut into items.    *)
 (*                                                                          *)
+(* DrawOK states the sixth demand (the widget draws exactly the emitted      *)
+(* lines) for run-length encoded lines and a surface given cell by cell.    *)
+(*                                                                          *)
 (* An input item is <<g, w, ws, nl, lt, gl, st, n>>: n >= 1 consecutive     *)
 (* copies of the input grapheme <<g, w, ws, nl, lt, gl, st>> of WrapRel     *)
 (* (gl: no break opportunity between a copy and what follows it, be that    *)
@@ -147,4 +150,33 @@ Why0(inp, width, done, ls) ==
   ELSE IF ~LettersOK(inp, ls, width) THEN "letters"
   ELSE IF ~HardOK(inp, ls) THEN "hardbreak"
   ELSE ""
+
+(* ---- 5. drawing ----------------------------------------------------------- *)
+(* As WrapRel!DrawOK: row r shows every grapheme of line r that has a width *)
+(* and is not white space at the column equal to the width of what precedes *)
+(* it on the line, with its style, and nothing that is not a grapheme of    *)
+(* that line at its own column.  The k-th copy (k = 0..n-1) of an item      *)
+(* stands k times its width behind the start of the item.  A row is a       *)
+(* sequence of cells <<g, w, st>>, g = 0 for blank/space.                   *)
+YOff(l, j) == SumYW(SubSeq(l, 1, j - 1))
+RowShows(l, row, sw) ==
+  /\ Len(row) = sw
+  /\ \A j \in 1..Len(l) :
+       (YW(l[j]) > 0 /\ ~YWs(l[j])) =>
+          \A k \in 0..(YN(l[j]) - 1) :
+             LET o == YOff(l, j) + k * YW(l[j]) IN
+             /\ o < sw
+             /\ row[o + 1][1] = YG(l[j])
+             /\ row[o + 1][3] = YSt(l[j])
+  /\ \A c \in 1..sw :
+       \/ row[c][1] = 0
+       \/ \E j \in 1..Len(l) :
+            LET d == c - 1 - YOff(l, j) IN
+            /\ YG(l[j]) = row[c][1]
+            /\ IF YW(l[j]) = 0 THEN d = 0
+               ELSE d >= 0 /\ d % YW(l[j]) = 0 /\ d \div YW(l[j]) < YN(l[j])
+DrawOK(ls, rows, sw, sh) ==
+  /\ sh = Len(ls)
+  /\ Len(rows) = sh
+  /\ \A r \in 1..sh : RowShows(ls[r], rows[r], sw)
 =============================================================================
